@@ -175,7 +175,8 @@ func c12Tie(r *Result, seqs []c12Seq, suite string) {
 
 func init() {
 	register("C12", func(r *Result, rng *rand.Rand, tier string) {
-		n := 4000
+		defer c12Timed("tie")()
+		n := 3000
 		if tier == "thorough" {
 			n = 70000
 		} else if tier == "search" {
